@@ -317,7 +317,9 @@ impl World {
         let mut addr_strs: Vec<String> = addrs.iter().map(|a| a.to_string()).collect();
         addr_strs.push("x".to_string());
         addr_strs.push(addrs[0].to_string().to_uppercase());
-        let mut hook_strs: Vec<String> = (0..N_HOOK).map(|i| d.api.addr_make(&format!("hook{i}")).to_string()).collect();
+        // the first two hook addresses are pool members themselves (a hook contract can also send calls,
+        // e.g. try to unsubscribe itself); the others are separate addresses
+        let mut hook_strs: Vec<String> = (0..N_HOOK).map(|i| if i < 2 { addrs[i as usize].to_string() } else { d.api.addr_make(&format!("hook{i}")).to_string() }).collect();
         hook_strs.push("not-a-hook-address".to_string());
         World { d, stake, addrs, addr_strs, hook_strs }
     }
